@@ -4,10 +4,14 @@
 # worktree and prints one line per (change, check): caught / missed, runs until the first
 # violation, violation class. Writes /verif/seeded/TABLE.md.
 cd /verif
+# GLOB='seeded/C*-m1[34]' APPEND=1 selftest/mutant_table.sh   adds the rows of some changes only
 OUT=seeded/TABLE.md
-echo "| seeded change | breaks | check | verdict | runs until caught | violation class / blame |" > $OUT
-echo "|---|---|---|---|---|---|" >> $OUT
-for d in seeded/C*-m*; do
+GLOB=${GLOB:-seeded/C*-m*}
+if [ -z "${APPEND:-}" ]; then
+  echo "| seeded change | breaks | check | verdict | runs until caught | violation class / blame |" > $OUT
+  echo "|---|---|---|---|---|---|" >> $OUT
+fi
+for d in $GLOB; do
   [ -f $d/meta.json ] || continue
   prop=$(python3 -c "import json;print(json.load(open('$d/meta.json'))['property'])")
   checks=$(python3 -c "import json;m=json.load(open('$d/meta.json'));print(' '.join([m['property']]+m.get('also_run',[])))")
